@@ -16,10 +16,10 @@ checks = {
  "C08": ("fault_enumeration", "record/part invariant evaluated after every applied effect of every run (every prefix is a crash image), with write faults and overlapping lifecycles; plus systematic single-fault sweep over base scenarios", "invariant over all prefixes + single-fault enumeration"),
  "C09": ("fault_enumeration", "after every run has quiesced, a fresh fully funded set per touched hash must settle (two attempts); plus systematic crash-point / write-fault sweep over base scenarios", "recovery probe after seeded runs + single-fault enumeration"),
  "C10": ("exploration", "every answer is compared with an independent reference classifier (signature, hash equality, amount reconciliation, self route hint); every pay carries exactly the classified invoice/amount", "differential against reference classifier under simulation"),
- "C11": ("exploration", "virtual-time stamp of every MPP-timeout failure is compared with the reference deadline (wait start + time left), incl. restart path and clock jumps", "discrete-event time, deadline oracle"),
- "C12": ("exploration", "every 0x201a failure equals the configured policy encoding; first-HTLC rejection and readiness are compared with a 128-bit reference predicate on the real request path", "reference predicate on the request path"),
+ "C11": ("exploration", "virtual-time stamp of every MPP-timeout failure is compared with the reference deadline: not before one timeout after the set's first HTLC was handed over, not later than the time left counted from the last reply the plugin needed, incl. restart path, clock jumps (also backwards at boot) and arrivals in the very instant of the deadline", "discrete-event time, deadline oracle"),
+ "C12": ("exploration", "every 0x201a failure equals the configured policy encoding; first-HTLC rejection, unjustified rejection and readiness are compared in both directions with a 128-bit reference predicate on the real request path (one known finding: product overflow, pinned by an existing unit test)", "reference predicate on the request path, two-sided"),
  "C13": ("exploration", "non-trampoline HTLCs are answered continue in their delivery step with all RPCs frozen, cause no RPC, leave no table entry, payload rewrite is byte-compared", "seeded input search, same-step oracle"),
- "C14": ("exploration", "one hash is frozen at a scheduler-chosen point; every other hash must still run to completion and all per-hash oracles hold", "freeze-one-hash schedules"),
+ "C14": ("exploration", "one to six hashes are frozen (all their RPCs withheld) or stalled (only their outgoing payment never progresses) at scheduler-chosen points, also across a restart; every other hash must still run to completion, all per-hash oracles hold and each pay request carries exactly what the hash's own HTLCs determine", "freeze / stall schedules, per-hash reference state"),
  "C17": ("exploration", "plugin output must tokenise into JSON objects separated by blank lines under arbitrary input chunking, short writes and back-pressure; one reply per request id", "byte-level chunking/back-pressure faults, stream oracle"),
 }
 manifest = {
@@ -27,7 +27,7 @@ manifest = {
  "setup_cmd": "cd /verif/simcrate && CARGO_NET_OFFLINE=true cargo build --release --offline && /verif/target/release/trampsim selftest --seeds 120",
  "hooks": {
   "guard": "--cfg breez_trampoline_verif",
-  "enable": "shadow manifest /verif/simcrate (lib path = /repo/src/main.rs) built with RUSTFLAGS '--cfg breez_trampoline_verif --cfg tokio_unstable' and TRAMPOLINE_VERIF_HARNESS=/verif/sim/root.rs (see /verif/simcrate/.cargo/config.toml); every ./check invocation rebuilds it from /repo's working tree. The shadow crate (only) links tokio 1.38.0 vendored under /verif/vendor/tokio with one cfg-guarded scheduling point added (vendor/tokio/src/verif_hook.rs); /repo's Cargo.toml and Cargo.lock are untouched apart from hook H0",
+  "enable": "shadow manifest /verif/simcrate (lib path = /repo/src/main.rs) built with RUSTFLAGS '--cfg breez_trampoline_verif --cfg tokio_unstable' and TRAMPOLINE_VERIF_HARNESS=/verif/sim/root.rs (see /verif/simcrate/.cargo/config.toml); every ./check invocation rebuilds it from /repo's working tree. The shadow crate (only) links tokio 1.38.0 vendored under /verif/vendor/tokio with two cfg-guarded scheduling points added (vendor/tokio/src/verif_hook.rs: a task may yield before an async Mutex is acquired; an elapsed Sleep of a spawned task may be observed one scheduling round later); /repo's Cargo.toml and Cargo.lock are untouched apart from hook H0",
   "baseline_off_cmd": "cd /repo && cargo test --workspace --no-fail-fast --offline",
   "source_commits": ["d69f6a7", "175d15a", "f03269f", "5b0a80f", "40c4ae6", "be75c4b", "a1971b1", "7648166"],
   "add_only": True
